@@ -96,7 +96,8 @@ def stores(fn, F, local_name, cut_loops=True, through_deref=False):
         if st['k'] != 'assign':
             continue
         lp = st['lhs']
-        if fn.locals[lp['l']].get('name') != local_name:
+        nm_ = fn.locals[lp['l']].get('name') or ''
+        if nm_ != local_name and not nm_.endswith('.' + local_name):
             continue
         pr = lp['p']
         if through_deref:
